@@ -1,5 +1,6 @@
 import ChessVerif.Props.C03
 import ChessVerif.Props.BitLoop
+import ChessVerif.Props.C03nc
 #print axioms ChessVerif.Props.C03.token_masks_disjoint
 #print axioms ChessVerif.Props.C03.token_fields_roundtrip
 #print axioms ChessVerif.Props.C03.isPseudoLegal_makeOK
@@ -11,3 +12,13 @@ import ChessVerif.Props.BitLoop
 #print axioms ChessVerif.Props.C03.undo_nested
 #print axioms ChessVerif.Props.BitLoop.goLoop_eq_bits
 #print axioms ChessVerif.Props.BitLoop.isolateLowest_eq
+#print axioms ChessVerif.Props.C03nc.undo_make_anyclock
+#print axioms ChessVerif.Props.C03nc.undo_make_gen_anyclock
+#print axioms ChessVerif.Props.C03nc.undoNull_makeNull_nc
+#print axioms ChessVerif.Props.C03nc.undo_nested_nc
+#print axioms ChessVerif.Props.C03nc.undo_nested_valid
+#print axioms ChessVerif.Props.C03nc.isPseudoLegal_makeOK_nc
+#print axioms ChessVerif.Props.C03nc.int8_make
+#print axioms ChessVerif.Props.C03nc.int8_null
+#print axioms ChessVerif.Props.C03nc.int8_of_valid
+#print axioms ChessVerif.Props.C03nc.int8_of_undo_make
